@@ -12,7 +12,7 @@ RULE = ("case = (generated plotfile spec, opening mode) with mode in {default, m
 
 
 def feq(a, b):
-    return np.array_equal(np.asarray(a, dtype=float), np.asarray(b, dtype=float))
+    return np.array_equal(np.asarray(a, dtype=float), np.asarray(b, dtype=float), equal_nan=True)
 
 
 def check_open(ctx, rep, spec, path, H, mode, model_replies=None):
@@ -185,7 +185,7 @@ def run_spec(ctx, rep, spec, model, only=None, previous=None):
 def run(ctx, rep, model=True):
     n = 50 if ctx.quick else 400
     for i in range(n):
-        spec = plotgen.random_spec(ctx.rng, nlev=[1, 2, 3, 4][i % 4] if i % 8 else 4, data="smallint", B=2,
+        spec = plotgen.random_spec(ctx.rng, nlev=[1, 2, 3, 4][i % 4] if i % 8 else 4, data=["smallint", "bits", "smallint"][i % 3], B=2,
                                    repeats=(i % 3 == 2), exact=(i % 5 != 4))
         run_spec(ctx, rep, spec, model)
         if i % 6 == 5:
